@@ -644,6 +644,9 @@ class H5Writer:
                 elif isinstance(entity, IntegerData):
                     out_values = np.round(out_values).astype("int32")
 
+                elif isinstance(entity, TextData) and len(values) == 0:
+                    out_values = np.asarray([], dtype=h5py.special_dtype(vlen=bytes))
+
                 elif isinstance(entity, TextData) and not isinstance(values[0], bytes):
                     out_values = np.char.encode(values, encoding="utf-8").astype("O")
 
